@@ -26,7 +26,7 @@ ANCHORS = [("leuvenmapmatching/matcher/base.py", "BaseMatcher._match_states"),
            ("leuvenmapmatching/util/dist_euclidean.py", "project"),
            ("leuvenmapmatching/util/dist_euclidean.py", "distance_segment_to_segment"),
            ("leuvenmapmatching/map/inmem.py", "InMemMap.edges_closeto")]
-TRANSFORMS = ["rename_str", "rename_reverse", "reorder", "swap_axes", "scale-10", "scale-3", "scale4", "scale12", "scale20", "translate"]
+TRANSFORMS = ["rename_str", "rename_reverse", "rename_nested", "reorder", "swap_axes", "scale-10", "scale-3", "scale4", "scale12", "scale20", "translate"]
 FLOORS = {f"transform:{t}": 250 for t in TRANSFORMS if t != "translate"}
 FLOORS.update({"transform:translate": 80, "base_cases": 400, "base_cases_nontrivial": 250, "paths_image_identical": 2500})
 ASSUMPTIONS = ["renaming/reordering/swap/scaling: index equal, best probability equal to 1e-9 relative, path = image of the base path unless both "
@@ -62,6 +62,16 @@ def apply(case, t, rng):
     elif t == "rename_reverse":
         srt = sorted(labs)
         ren = {l: "r%05d" % (len(srt) - k) for k, l in enumerate(srt)}
+    elif t == "rename_nested":
+        # names that are prefixes / substrings of each other (1, 11, 111, ... or a, aa, aaa, ...), randomly assigned:
+        # any comparison of labels other than equality of the whole label shows
+        order = list(labs)
+        rng.shuffle(order)
+        if rng.random() < 0.6:
+            ren = {l: int("1" * (k + 1)) for k, l in enumerate(order)}
+        else:
+            ch = rng.choice(["a", "-", "1-"])
+            ren = {l: ch * (k + 1) for k, l in enumerate(order)}
     elif t == "reorder":
         rng.shuffle(nodes)
         rng.shuffle(edges)
@@ -177,7 +187,7 @@ def check_case(ctx, case):
             # fault localisation: where do the two lattices diverge first, and is that an exact tie resolved by listing order
             # inside one of the two order-dependent search heuristics (recorded findings), or something else?
             mech = None
-            if t in ("rename_str", "rename_reverse", "reorder"):
+            if t in ("rename_str", "rename_reverse", "rename_nested", "reorder"):
                 div = oracles.first_lattice_divergence(mt0, mt1, keymap=lambda key: [ren.get(x, x) if j < len(key) - 2 else x for j, x in enumerate(key)])
                 mech = oracles.order_dependence_mechanism(src["cfg"], div)
                 text += f" | first lattice divergence: {div}"
